@@ -141,6 +141,16 @@ class Circuit:
                     "be converted to a unitary matrix."
                 )
 
+        if any(isinstance(matrix, sympy.MatrixBase) for matrix in lifted_matrices):
+            # Mixed circuit: multiply sympy matrices only (numpy-2 arrays cannot be
+            # multiplied with sympy matrices, their scalars cannot be sympified).
+            lifted_matrices = [
+                matrix
+                if isinstance(matrix, sympy.MatrixBase)
+                else sympy.Matrix(matrix.tolist())
+                for matrix in lifted_matrices
+            ]
+
         return reduce(operator.matmul, lifted_matrices)
 
     def bind(self, symbols_map: Dict[sympy.Symbol, Any]):
